@@ -769,3 +769,18 @@ func init() { RegisterSites(map[int]string{siteSleep: "time.Sleep", 0: "root"}) 
 
 // SleepD replaces time.Sleep in instrumented code.
 func SleepD(d time.Duration) { Sleep(siteSleep, d) }
+
+// CurTask returns the id of the calling task, or -1 for a foreign goroutine.
+func CurTask() int {
+	s := active.Load()
+	if s == nil {
+		return -1
+	}
+	raceDisable()
+	t := s.task()
+	raceEnable()
+	if t == nil {
+		return -1
+	}
+	return t.ID
+}
